@@ -88,7 +88,7 @@ def emit_sys(traces, out, monitors):
     """traces: list of dicts from `verifh sys`.  monitors: list of Coq function names of type
     list (directive * list obs) -> bool evaluated on the implementation's observations."""
     em = Emitter()
-    out.write('From RV Require Import Sys Replay Mon MonC09 MonC01 MonC05 MonC04 MonC07 MonC08 MonC03 MonC14 MonC10 MonC06 MonC11 MonC02 MonC13.\n')
+    out.write('From RV Require Import Sys Replay Mon MonC09 MonC01 MonC05 MonC04 MonC07 MonC08 MonC03 MonC05h MonC14 MonC10 MonC06 MonC11 MonC02 MonC13.\n')
     names = []
     for k, tr in enumerate(traces):
         cfg = tr['cfg']
@@ -140,7 +140,7 @@ def emit_cases(fam, traces, out):
 
 def emit_store(traces, out):
     em = Emitter()
-    out.write('From RV Require Import Sys Replay Mon MonC09 MonC01 MonC05 MonC04 MonC07 MonC08 MonC03 MonC14 MonC10 MonC06 MonC11 MonC02 MonC13.\n')
+    out.write('From RV Require Import Sys Replay Mon MonC09 MonC01 MonC05 MonC04 MonC07 MonC08 MonC03 MonC05h MonC14 MonC10 MonC06 MonC11 MonC02 MonC13.\n')
     names = []
     for k, tr in enumerate(traces):
         evs = []
